@@ -411,9 +411,10 @@ macro_rules! long_folds {
         fn $fname(d: &mut Draw) -> Outcome {
             type F = $F;
             // list length: short, around typical block sizes (16, 32, 64, 128, 256), or anywhere up to 600
-            let len = match d.int(0, 3) {
+            let len = match d.int(0, 4) {
                 0 => d.int(0, 12),
-                1 => d.pick(&[16i64, 32, 64, 128, 256]) + d.int(-2, 3),
+                1 => d.pick(&[16i64, 32, 64, 128, 256, 512, 1024, 2048]) + d.int(-2, 3),
+                2 => d.int(1000, 2600),
                 _ => d.int(13, 600),
             } as usize;
             // a few drawn values, repeated cyclically with exact sign / power-of-two changes: sums of wildly different
@@ -501,7 +502,7 @@ macro_rules! long_folds {
             prods!(Matrix4<F>, |j| match j % 3 { 0 => Matrix4::from_angle_x(ang(j)), 1 => Matrix4::from_angle_y(ang(j)), _ => Matrix4::from_translation(Vector3::new(el(j, 0), 1.0, -2.0) * (1e-3 as F)) }, "long-matrix4");
             prods!(Basis2<F>, |j| Rotation2::from_angle(ang(j)), "long-basis2");
             prods!(Basis3<F>, |j| match j % 3 { 0 => cgmath::Rotation3::from_angle_x(ang(j)), 1 => cgmath::Rotation3::from_angle_y(ang(j)), _ => cgmath::Rotation3::from_angle_z(ang(j)) }, "long-basis3");
-            pass(if len <= 12 { "short" } else if len <= 128 { "up-to-128" } else { "longer-than-128" }, len >= 2)
+            pass(if len <= 12 { "short" } else if len <= 128 { "up-to-128" } else if len < 1000 { "longer-than-128" } else { "longer-than-1000" }, len >= 2)
         }
     };
 }
@@ -512,9 +513,10 @@ long_folds!(long_folds_f64, f64);
 macro_rules! long_int_folds {
     ($fname:ident, $S:ty) => {
         fn $fname(d: &mut Draw) -> Outcome {
-            let len = match d.int(0, 2) {
+            let len = match d.int(0, 3) {
                 0 => d.int(0, 12),
-                1 => d.pick(&[16i64, 32, 64, 128, 256]) + d.int(-2, 3),
+                1 => d.pick(&[16i64, 32, 64, 128, 256, 1024]) + d.int(-2, 3),
+                2 => d.int(1000, 2600),
                 _ => d.int(13, 400),
             } as usize;
             // mostly zeros and small values, a few large ones of either sign: partial sums cross the type's range or not
@@ -583,7 +585,7 @@ macro_rules! matrix_forms {
         same!($M { $($f: -a.$f),+ }, -a, "matrix-neg-value", "-{} per column", name);
         // folds
         let len = $d.int(0, 5) as usize;
-        let list: Vec<$M<$F>> = (0..len).map(|_| $M { $($f: $gv($d)),+ }).collect();
+        let list: Vec<$M<$F>> = (0..len).map(|_| match $d.int(0, 5) { 0 => $M::<$F>::one(), 1 => $M::<$F>::zero(), _ => $M { $($f: $gv($d)),+ } }).collect();
         let mut fs = $M::<$F>::zero();
         let mut fp = $M::<$F>::one();
         for m in &list { fs = fs + *m; fp = fp * *m; }
@@ -641,7 +643,9 @@ macro_rules! float_forms {
             same!(Quaternion { s: s / p.s, v: s / p.v }, r, "scalar-left-div-quaternion", "scalar / Quaternion per component");
             same!(r, s / &p, "scalar-left-div-quaternion-ref", "scalar / &Quaternion");
             let len = d.int(0, 5) as usize;
-            let list: Vec<Quaternion<F>> = (0..len).map(|_| gq(d)).collect();
+            // (neutral elements in the middle of a list are factors like any other: x * 1 turns an infinity into NaN and a
+            // -0.0 into +0.0, and the fold is defined as doing exactly that)
+            let list: Vec<Quaternion<F>> = (0..len).map(|_| match d.int(0, 5) { 0 => Quaternion::<F>::one(), 1 => Quaternion::<F>::zero(), _ => gq(d) }).collect();
             let mut fs = Quaternion::<F>::zero();
             let mut fp = Quaternion::<F>::one();
             for x in &list { fs = fs + *x; fp = fp * *x; }
@@ -948,9 +952,9 @@ pub fn property() -> Property {
     wi!(wi_i32, "i32");
     wi!(wi_i64, "i64");
     wi!(wi_isize, "isize");
-    const RL: &str = "lists of at least two items; lengths 0..12, around 16/32/64/128/256, and anywhere up to 600";
-    add!("long_folds-f32", "f32", long_folds_f32, 300, 20_000, 128, &[("up-to-128", 200), ("longer-than-128", 200)], RL);
-    add!("long_folds-f64", "f64", long_folds_f64, 300, 20_000, 128, &[("up-to-128", 200), ("longer-than-128", 200)], RL);
+    const RL: &str = "lists of at least two items; lengths 0..12, around 16/32/../2048, anywhere up to 600, and 1000..2600";
+    add!("long_folds-f32", "f32", long_folds_f32, 150, 20_000, 128, &[("up-to-128", 150), ("longer-than-128", 150), ("longer-than-1000", 100)], RL);
+    add!("long_folds-f64", "f64", long_folds_f64, 150, 20_000, 128, &[("up-to-128", 150), ("longer-than-128", 150), ("longer-than-1000", 100)], RL);
     add!("long_int_folds-i8", "i8", long_int_folds_i8, 600, 40_000, 48, &[("fold-overflows", 100), ("long-no-overflow", 10)], RL);
     add!("long_int_folds-i32", "i32", long_int_folds_i32, 600, 40_000, 48, &[("fold-overflows", 100), ("long-no-overflow", 30)], RL);
     add!("long_int_folds-u8", "u8", long_int_folds_u8, 600, 40_000, 48, &[("fold-overflows", 100)], RL);
